@@ -53,33 +53,46 @@ def ctor_case(case):
     from core import Driver, Failure
     drv = Driver("arch")
     try:
-        for cls in ("grid", "cvt"):
+        for cls, dt in (("grid", np.float64), ("cvt", np.float64), ("grid", np.float32), ("cvt", np.float32)):
             for lr in (None, 1.0, 0.5, 0.0):
-                for tmin in (-np.inf, 0.0, -3.5):
+                # -1e39 is finite, but not in a float32 archive: the archive keeps threshold_min in its own dtype
+                for tmin in (-np.inf, 0.0, -3.5, -1e39):
                     kw = {}
                     if lr is not None:
                         kw["learning_rate"] = lr
                     kw["threshold_min"] = tmin
+                    arch = None
                     try:
-                        if cls == "grid":
-                            GridArchive(solution_dim=1, dims=[2], ranges=[(0, 1)], **kw)
-                        else:
-                            CVTArchive(solution_dim=1, cells=2, ranges=[(0, 1)],
-                                       custom_centroids=np.array([[0.25], [0.75]]), **kw)
+                        with np.errstate(all="ignore"), __import__("warnings").catch_warnings():
+                            __import__("warnings").simplefilter("ignore")
+                            if cls == "grid":
+                                arch = GridArchive(solution_dim=1, dims=[2], ranges=[(0, 1)], dtype=dt, **kw)
+                            else:
+                                arch = CVTArchive(solution_dim=1, cells=2, ranges=[(0, 1)], dtype=dt,
+                                                  custom_centroids=np.array([[0.25], [0.75]]), **kw)
                         impl = "ok"
                     except ValueError:
                         impl = "err value"
+                    with np.errstate(all="ignore"):
+                        stored = float(dt(tmin))        # what an archive of this dtype can hold
                     lr_s = "none" if lr is None else archlib.q(archlib.F(lr))
-                    t_s = "-inf" if tmin == -np.inf else archlib.q(archlib.F(tmin))
+                    # (the first coupling is about the argument as given, the second about the value the archive holds)
+                    seen = tmin if lr is None else stored
+                    t_s = "-inf" if seen == -np.inf else archlib.q(archlib.F(seen))
                     m = drv.ask(f"new kind=grid dims=2 lo=0 hi=1 eps=0 lr={lr_s} tmin={t_s} off=0")
                     m = "ok" if m.startswith("ok") else m
                     want = "err value" if ((lr is None and tmin != -np.inf) or
-                                           (lr is not None and lr != 1.0 and tmin == -np.inf)) else "ok"
+                                           (lr is not None and lr != 1.0 and stored == -np.inf)) else "ok"
+                    what = f"{cls}(dtype={np.dtype(dt).name}, learning_rate={lr}, threshold_min={tmin})"
+                    if impl == "ok" and lr is not None and lr != 1.0 and tmin != -np.inf and \
+                            not np.isfinite(arch.threshold_min):
+                        return Failure("oracle", f"[C05] constructor {what} accepted a finite threshold_min but every "
+                                       f"cell's threshold starts at {arch.threshold_min}, not at a finite threshold_min")
                     if impl != want:
-                        return Failure("oracle", f"[C05] constructor {cls}(learning_rate={lr}, threshold_min={tmin}) "
+                        return Failure("oracle", f"[C05] constructor {what} "
                                        f"-> {impl}, documented coupling says {want}")
                     if impl != m:
-                        return Failure("corr", f"[C05] constructor coupling impl={impl} model={m} for lr={lr} tmin={tmin}")
+                        return Failure("corr", f"[C05] constructor coupling impl={impl} model={m} for {what}")
         return None
     finally:
         drv.close()
